@@ -145,7 +145,8 @@ def gen_optspec(cs, lab):
         key = OPTKEYS[(start + j) % len(OPTKEYS)]
         kind = cs.weighted(f"{lab}.o{j}.kind",
                            [("ints", 5), ("strs", 4), ("bare", 2),
-                            ("mixed", 2), ("intfloat", 1)])
+                            ("mixed", 2), ("intfloat", 1), ("floats", 1),
+                            ("bools", 1)])
         if kind == "bare":
             v = cs.choice(f"{lab}.o{j}.bare", [3, "solo", 2.5, 0, "a"])
             spec.append((key, True, [v]))
@@ -156,6 +157,10 @@ def gen_optspec(cs, lab):
                     else STRS[(q * 3) % len(STRS)] for q in range(10)]
         elif kind == "intfloat":
             pool = [1, 2.5, 3, 0.5, 7, -1.5, 10, 21, 0, 100]
+        elif kind == "floats":
+            pool = [0.0, 0.5, 1.0, 2.5, -1.5, 10.0, 0.25, 3.0, 100.0, -2.0]
+        elif kind == "bools":
+            pool = [True, False] * 5
         else:
             pool = INTS if kind == "ints" else STRS
         nv = cs.between(f"{lab}.o{j}.nv", 1, 5)
@@ -233,7 +238,11 @@ def check_tasks_and_find(cs, opm, mm, where, opkind, lab):
     k, vals = mm.optmodel[cs.draw(lab + ".fk", len(mm.optmodel))]
     v = vals[cs.draw(lab + ".fv", len(vals))]
     if isinstance(v, float):
-        return
+        # find matches the printed form as a pattern ('.' is a wildcard):
+        # only ask when no other value of the option is matched by accident
+        import re as _re
+        if any(w != v and _re.search(f"^{v}$", str(w)) for w in vals):
+            return
     try:
         ids = list(opm.find(**{k: v}))
     except Exception as e:
